@@ -14,7 +14,8 @@ def run(tier, seed):
                        'outcomes, exception kinds versus handlers of each stage as transcribed); that the transcribed table is what the code does '
                        'is the job of the stage `main` correspondence and of the oracle; termination within bounded time and memory for huge but '
                        'finite sizes is not decided']
-    standard_front(chk, 'Props/C20.v', needs_items=('fset',), extra_vo=('Model/Main.v', 'Proofs/MainP.v'))
+    standard_front(chk, 'Props/C20.v', needs_items=('fset', 'main_sites'), extra_vo=('Model/Main.v', 'Proofs/MainP.v', 'Gen/MainFlow.v', 'Proofs/MainFlowP.v'))
+    stage_main.unsafe_sites(chk)
     rng = random.Random(seed)
     q = tier == 'quick'
     stage_main.run_rows(chk)
